@@ -170,6 +170,21 @@ pub enum Item {
     Bytes(Vec<u8>),
     Pair(u64, String),
     Chunked(Vec<u8>, Vec<u16>),
+    // every integer width and the std shapes that reach the hasher through the typed `write_*` methods
+    U8(u8),
+    U16(u16),
+    U32(u32),
+    I64(i64),
+    Usize(u32),
+    /// u128 / i128 as (high, low) halves (serde_json values cannot carry 128-bit numbers)
+    U128(u64, u64),
+    I128(u64, u64),
+    Bool(bool),
+    Char(u32),
+    /// (u8, u128, i16)
+    Mixed(u8, u64, u64, i16),
+    VecU64(Vec<u64>),
+    OptU32(Option<u32>),
 }
 
 pub fn item_strategy() -> impl Strategy<Value = Item> {
@@ -181,6 +196,24 @@ pub fn item_strategy() -> impl Strategy<Value = Item> {
         (any::<u64>(), "[a-z]{0,20}").prop_map(|(a, b)| Item::Pair(a, b)),
         (proptest::collection::vec(any::<u8>(), 0..100), proptest::collection::vec(any::<u16>(), 0..6))
             .prop_map(|(b, c)| Item::Chunked(b, c)),
+        prop_oneof![
+            any::<u8>().prop_map(Item::U8),
+            any::<u16>().prop_map(Item::U16),
+            any::<u32>().prop_map(Item::U32),
+            any::<i64>().prop_map(Item::I64),
+            any::<u32>().prop_map(Item::Usize),
+            any::<bool>().prop_map(Item::Bool),
+        ],
+        prop_oneof![
+            (any::<u64>(), any::<u64>()).prop_map(|(a, b)| Item::U128(a, b)),
+            (any::<u64>(), any::<u64>()).prop_map(|(a, b)| Item::I128(a, b)),
+            (any::<u8>(), any::<u64>(), any::<u64>(), any::<i16>()).prop_map(|(a, b, c, d)| Item::Mixed(a, b, c, d)),
+        ],
+        prop_oneof![
+            any::<u32>().prop_map(Item::Char),
+            proptest::collection::vec(any::<u64>(), 0..9).prop_map(Item::VecU64),
+            proptest::option::of(any::<u32>()).prop_map(Item::OptU32),
+        ],
     ]
 }
 
@@ -213,6 +246,54 @@ macro_rules! with_item {
             $crate::props::c16::Item::Chunked(b, c) => {
                 let cuts = $crate::props::c16::cut_points(b.len(), c, false);
                 let $v = $crate::kit::refhash::Chunked { bytes: b.as_slice(), cuts: &cuts };
+                $body
+            }
+            $crate::props::c16::Item::U8(x) => {
+                let $v = *x;
+                $body
+            }
+            $crate::props::c16::Item::U16(x) => {
+                let $v = *x;
+                $body
+            }
+            $crate::props::c16::Item::U32(x) => {
+                let $v = *x;
+                $body
+            }
+            $crate::props::c16::Item::I64(x) => {
+                let $v = *x;
+                $body
+            }
+            $crate::props::c16::Item::Usize(x) => {
+                let $v = *x as usize;
+                $body
+            }
+            $crate::props::c16::Item::U128(a, b) => {
+                let $v = ((*a as u128) << 64) | *b as u128;
+                $body
+            }
+            $crate::props::c16::Item::I128(a, b) => {
+                let $v = (((*a as u128) << 64) | *b as u128) as i128;
+                $body
+            }
+            $crate::props::c16::Item::Bool(x) => {
+                let $v = *x;
+                $body
+            }
+            $crate::props::c16::Item::Char(x) => {
+                let $v = char::from_u32(*x % 0x11_0000).unwrap_or('\u{fffd}');
+                $body
+            }
+            $crate::props::c16::Item::Mixed(a, b, c, d) => {
+                let $v = (*a, ((*b as u128) << 64) | *c as u128, *d);
+                $body
+            }
+            $crate::props::c16::Item::VecU64(x) => {
+                let $v = x.clone();
+                $body
+            }
+            $crate::props::c16::Item::OptU32(x) => {
+                let $v = *x;
                 $body
             }
         }
@@ -267,6 +348,9 @@ fn derived(c: &DerivedCase, info: &mut CaseInfo) -> Result<(), Fail> {
         Item::Bytes(_) => "item=bytes",
         Item::Pair(..) => "item=tuple",
         Item::Chunked(..) => "item=chunked",
+        Item::U8(_) | Item::U16(_) | Item::U32(_) | Item::I64(_) | Item::Usize(_) | Item::Bool(_) => "item=other_int",
+        Item::U128(..) | Item::I128(..) | Item::Mixed(..) => "item=128bit",
+        Item::Char(_) | Item::VecU64(_) | Item::OptU32(_) => "item=std_shape",
     });
 
     // seed hash (compact theta image bytes 6..8, CPC image bytes 6..8, Count-Min image bytes 13..15)
